@@ -985,6 +985,7 @@ class SP(Robot):
         """
         #Do SPFK with scipy inbuilt solvers. Way less speedy o
         #Or accurate than Raphson, but much simpler to look at
+        start_top = self.getTopT()
         L = L.reshape((6, 1))
         self.lengths = L.reshape((6, 1)).copy()
         #jac = lambda x : self.inverseJacobian(top_plate_pos = x)
@@ -1007,6 +1008,9 @@ class SP(Robot):
         nLens = self.getLens()
         for j in range(6):
             if abs(abs(L[j]) - abs(nLens[j])) > 0.00001 or not self.validate(True):
+                #The solve failed: fall back to Raphson from the pose this call started at,
+                #not from whatever the failed solve left behind.
+                self.IK(top_plate_pos = start_top, bottom_plate_pos = plate_pos, protect = True)
                 return self._FKRaphson(L, plate_pos, protect)
         #If not "Protected" from recursion, call IK.
         if not protect:
